@@ -298,13 +298,33 @@ def load_program(tier="quick"):
     else:
         prefixes = [(n, extract_unit(n, s, fl)) for (n, s, fl) in units]
     counts = {}
+    prog.skipped_units = {}
     for n, p in prefixes:
+        why = other_configuration(p)
+        if why:
+            prog.skipped_units[n] = why
+            continue
         counts[n] = prog.load_unit(p, n)
     prog.index()
     prog.unit_fn_counts = counts
     prog.load_s = time.time() - t0
     _program_cache[key] = prog
     return prog
+
+
+def other_configuration(prefix):
+    """A unit built in a configuration the properties do not speak about (CHAISCRIPT_NO_THREADS: per-thread storage is a
+    plain member, the lock classes are empty).  Mixing its variants of the same class names into one program would
+    make the per-class rules compare members of two different classes."""
+    try:
+        with open(prefix + ".meta.json") as fh:
+            meta = json.load(fh)
+    except OSError:
+        return None
+    for r in meta.get("records", []):
+        if r.get("q", "").startswith("chaiscript::detail::threading::Thread_Storage<") and any(f.get("name") == "obj" for f in r.get("fields", [])):
+            return "built with CHAISCRIPT_NO_THREADS (single-threaded configuration: Thread_Storage is a plain member, locks are no-ops); not merged into the threaded program"
+    return None
 
 
 def build_units():
